@@ -59,7 +59,11 @@ def run(ctx: Ctx) -> None:
         # the replacement happens while the temporary file is still open (inside the with block that writes it)
         fdo = [c for c in opens if dotted(c.func) == 'os.fdopen']
         withs_ = [n for n in walk_no_nested(f.node) if isinstance(n, ast.With) and any(it.context_expr in fdo for it in n.items)]
-        if len(withs_) == 1 and any(x is rep[0] for x in ast.walk(withs_[0])):
+        # (a handle that is closed explicitly before the replacement is flushed and closed: left open)
+        handles = {unparse(it.optional_vars) for w_ in withs_ for it in w_.items if it.context_expr in fdo and it.optional_vars is not None}
+        closed = [c for w_ in withs_ for c in ast.walk(w_) if isinstance(c, ast.Call) and isinstance(c.func, ast.Attribute) and c.func.attr in ('close', 'flush') and unparse(c.func.value) in handles
+                  and cfg.node_of(c) is not None and cfg.node_of(rep[0]) is not None and cfg.dominates(cfg.node_of(c), cfg.node_of(rep[0]))]
+        if len(withs_) == 1 and any(x is rep[0] for x in ast.walk(withs_[0])) and handles and not closed:
             early = 'os.replace is called inside the with block that writes the temporary file: the iteration file is replaced by a file that is not yet flushed and closed - a process stopped at that moment leaves an empty or truncated file'
     ctx.add('C15.R1', 'iter-writer:atomic', ok if (ok or early) else None, (f.file, mk[0].lineno if mk else f.line),
             'unique temporary file in the same directory, written and closed, then os.replace onto the iteration file' if ok else (early or 'the write-temporary-then-replace protocol is not in the expected form'), 'atomic', positive=bool(early))
@@ -221,7 +225,44 @@ def _derived_names(func: ast.AST, G: str) -> set[str]:
     return out
 
 
-def _truth(e: ast.expr, names: set[str], scenario: str, open_: list) -> bool | None:
+def _gradient_form(e: ast.expr, G: str) -> str | None:
+    """what an expression says about the gradient as a whole: 'vector' the gradient itself (copied, converted, in absolute value),
+    'norm' its norm (NaN when an entry is NaN, infinite when an entry is infinite and none is NaN), 'sum' a sum / scalar product /
+    largest absolute value over all entries (not finite when an entry is not finite; whether NaN or infinite is not determined);
+    None: anything else (one entry, a slice, the length, ...)"""
+    if isinstance(e, ast.Name):
+        return 'vector' if e.id == G else None
+    if isinstance(e, ast.UnaryOp) and isinstance(e.op, (ast.USub, ast.UAdd)):
+        return _gradient_form(e.operand, G)
+    if isinstance(e, ast.BinOp) and isinstance(e.op, ast.MatMult):
+        return 'sum' if _gradient_form(e.left, G) == 'vector' and _gradient_form(e.right, G) == 'vector' else None
+    if isinstance(e, ast.Call):
+        fn_ = dotted(e.func) or ''
+        last = fn_.split('.')[-1] if fn_ else (e.func.attr if isinstance(e.func, ast.Attribute) else '')
+        head = fn_.split('.')[0] if fn_ else ''
+        if isinstance(e.func, ast.Attribute) and head not in ('np', 'numpy', 'scipy', 'math', 'la', 'linalg') and not e.args and not e.keywords:
+            inner = _gradient_form(e.func.value, G)
+            if e.func.attr in ('ravel', 'flatten', 'copy', 'squeeze'):
+                return inner if inner == 'vector' else None
+            if e.func.attr == 'sum':
+                return 'sum' if inner == 'vector' else None
+            return None
+        if head in ('np', 'numpy', 'scipy', 'abs', 'norm', 'la', 'linalg') and e.args:
+            inner = _gradient_form(e.args[0], G)
+            if last in ('asarray', 'array', 'abs', 'absolute', 'fabs', 'ravel', 'asfarray', 'atleast_1d') and len(e.args) == 1:
+                return inner if inner == 'vector' else None
+            if last == 'norm' and inner == 'vector' and not any(k.arg == 'axis' for k in e.keywords):
+                return 'norm'
+            if last in ('sum', 'max', 'amax') and len(e.args) == 1 and not e.keywords and inner == 'vector':
+                if last == 'sum' or (isinstance(e.args[0], ast.Call) and (dotted(e.args[0].func) or '').split('.')[-1] in ('abs', 'absolute', 'fabs')):
+                    return 'sum'
+                return None
+            if last in ('dot', 'inner', 'vdot') and len(e.args) == 2 and inner == 'vector' and _gradient_form(e.args[1], G) == 'vector':
+                return 'sum'
+    return None
+
+
+def _truth(e: ast.expr, names: set[str], scenario: str, open_: list, G: str | None = None, consts: dict | None = None) -> bool | None:
     """value of a test when the gradient has a NaN entry and no infinite one (scenario 'nan') or an infinite entry and no NaN
     ('inf'); None = not determined by that fact.  A sub-expression that involves the gradient and is not understood is
     appended to open_."""
@@ -235,11 +276,13 @@ def _truth(e: ast.expr, names: set[str], scenario: str, open_: list) -> bool | N
 
     if isinstance(e, ast.Constant):
         return bool(e.value)
+    if isinstance(e, ast.Name) and consts and e.id in consts:
+        return consts[e.id]
     if isinstance(e, ast.UnaryOp) and isinstance(e.op, ast.Not):
-        v = _truth(e.operand, names, scenario, open_)
+        v = _truth(e.operand, names, scenario, open_, G, consts)
         return None if v is None else not v
     if isinstance(e, ast.BoolOp):
-        vals = [_truth(v, names, scenario, open_) for v in e.values]
+        vals = [_truth(v, names, scenario, open_, G, consts) for v in e.values]
         absorbing = isinstance(e.op, ast.Or)
         if any(v is absorbing for v in vals):
             return absorbing
@@ -247,11 +290,13 @@ def _truth(e: ast.expr, names: set[str], scenario: str, open_: list) -> bool | N
     if isinstance(e, ast.Compare) and len(e.ops) == 1:
         left, right, op = e.left, e.comparators[0], e.ops[0]
         if isinstance(op, (ast.NotEq, ast.Eq)) and unparse(left) == unparse(right) and about_gradient(left):
+            if G is not None and _gradient_form(left, G) != 'norm':
+                return unknown(e)  # one entry / the vector compared with itself: not a statement about the whole gradient in a form understood here
             isnan = scenario == 'nan'  # x != x is the NaN test
             return isnan if isinstance(op, ast.NotEq) else not isnan
         for a, b in ((left, right), (right, left)):
             if isinstance(b, ast.Constant) and isinstance(b.value, bool) and isinstance(op, (ast.Eq, ast.NotEq, ast.Is, ast.IsNot)):
-                v = _truth(a, names, scenario, open_)
+                v = _truth(a, names, scenario, open_, G, consts)
                 if v is None:
                     return None
                 return (v == b.value) if isinstance(op, (ast.Eq, ast.Is)) else (v != b.value)
@@ -276,6 +321,11 @@ def _truth(e: ast.expr, names: set[str], scenario: str, open_: list) -> bool | N
             if kind and len(inner.args) == 1 and not inner.keywords:
                 if not about_gradient(inner.args[0]):
                     return None  # finiteness of something else: does not depend on the scenario
+                # the test speaks about the gradient only when its argument is the whole gradient, its norm or a sum over it:
+                # the finiteness of one entry, of a slice, of the length ... says nothing about the other entries
+                form = _gradient_form(inner.args[0], G) if G is not None else 'vector'
+                if form is None or (form == 'sum' and kind != 'fin'):
+                    return unknown(e)
                 if kind == 'fin':
                     return False if red in (None, 'all') else unknown(e)
                 if kind == scenario:
@@ -293,11 +343,23 @@ def _reachable_nonfinite(func: ast.AST, cfg, G: str, scenario: str, writes: list
 
     names = _derived_names(func, G)
     h = cfg.g.copy()
+    decided: set[int] = set()   # tests whose outcome is known in the scenario
+    steered: set[int] = set()   # statements whose execution is decided by such a test
+
+    def cut(n: int, st, v: bool) -> None:
+        decided.add(n)
+        steered.update(m for s_ in list(st.body) + list(st.orelse) for x in ast.walk(s_) if isinstance(x, (ast.stmt, ast.ExceptHandler)) for m in [cfg.node_of(x)] if m is not None)
+        inside = {id(x) for s_ in st.body for x in ast.walk(s_)}
+        for s_ in list(h.successors(n)):
+            on_true = id(cfg.stmt[s_]) in inside
+            if on_true != v:
+                h.remove_edge(n, s_)
+
     for n in cfg.nodes():
         st = cfg.stmt[n]
         if isinstance(st, (ast.If, ast.While, ast.Assert)):
             open_: list = []
-            v = _truth(inline_locals(func, st.test), names | {G}, scenario, open_)
+            v = _truth(inline_locals(func, st.test), names | {G}, scenario, open_, G)
             if v is None and open_:
                 return None
             if v is None:
@@ -306,18 +368,61 @@ def _reachable_nonfinite(func: ast.AST, cfg, G: str, scenario: str, writes: list
                 if v is False:
                     h.remove_edges_from(list(h.out_edges(n)))
                 continue
-            inside = {id(x) for s_ in st.body for x in ast.walk(s_)}
-            for s_ in list(h.successors(n)):
-                on_true = id(cfg.stmt[s_]) in inside
-                if on_true != v:
-                    h.remove_edge(n, s_)
+            cut(n, st, v)
         else:
             # a conditional expression / short-circuit statement deciding on the gradient outside a test is not followed
             own = [x for x in ast.walk(st) if isinstance(x, ast.IfExp)] if isinstance(st, ast.AST) and not isinstance(st, (ast.For, ast.With, ast.Try, ast.FunctionDef, ast.ClassDef)) else []
             for x in own:
                 open_ = []
-                if _truth(inline_locals(func, x.test), names | {G}, scenario, open_) is not None or open_:
+                if _truth(inline_locals(func, x.test), names | {G}, scenario, open_, G) is not None or open_:
                     return None
+    # flags: a local that holds a constant on every path that is left (e.g. set to False under the finiteness test) decides the tests
+    # that read it; a test that reads a local whose value is computed under a decided test is not followed
+    defs = cfg.defs()
+    changed = True
+    while changed:
+        changed = False
+        live = set(nx.descendants(h, ENTRY)) | {ENTRY}
+        rd_in: dict[int, dict[str, frozenset]] = {n: {} for n in live}
+        rd_out: dict[int, dict[str, frozenset]] = {n: {} for n in live}
+        again = True
+        while again:
+            again = False
+            for n in live:
+                acc: dict[str, set] = {}
+                for p_ in h.predecessors(n):
+                    if p_ in live:
+                        for k, vs in rd_out[p_].items():
+                            acc.setdefault(k, set()).update(vs)
+                fin = {k: frozenset(vs) for k, vs in acc.items()}
+                out = dict(fin)
+                for d in defs[n]:
+                    out[d.name] = (fin.get(d.name, frozenset()) | {n}) if d.kind == 'aug' else frozenset({n})
+                if fin != rd_in[n] or out != rd_out[n]:
+                    rd_in[n], rd_out[n], again = fin, out, True
+        for n in sorted(live):
+            st = cfg.stmt[n]
+            if n in decided or not isinstance(st, (ast.If, ast.While)):
+                continue
+            consts: dict[str, bool] = {}
+            for nm in {x.id for x in ast.walk(st.test) if isinstance(x, ast.Name)}:
+                ds = [d for dn in rd_in[n].get(nm, ()) for d in defs[dn] if d.name == nm]
+                if not ds:
+                    continue
+                vals = {bool(d.value.value) if d.kind == 'assign' and isinstance(d.value, ast.Constant) else None for d in ds}
+                if len(vals) == 1 and None not in vals:
+                    consts[nm] = vals.pop()
+                elif any(d.node in steered and not (d.kind == 'assign' and isinstance(d.value, ast.Constant)) for d in ds):
+                    return None
+            if not consts:
+                continue
+            open_ = []
+            v = _truth(inline_locals(func, st.test), names | {G}, scenario, open_, G, consts)
+            if v is None:
+                continue
+            cut(n, st, v)
+            changed = True
+            break
     ws = {cfg.node_of(w) for w in writes}
     if None in ws:
         return None
@@ -328,9 +433,19 @@ def _best_so_far(func: ast.AST, cfg, F: str, writes: list) -> bool:
     """every write sits in the true branch of a test with the conjuncts self.save_iterations and F >= self.bestIteration (on one
     test or on nested ones), that branch first raises the marker to F; the only other assignment of the marker is its
     initialisation to F when it is None"""
-    def conjuncts(t):
+    def conjuncts(t, depth=3):
         t = inline_locals(func, t)
-        return [unparse(v) for v in t.values] if isinstance(t, ast.BoolOp) and isinstance(t.op, ast.And) else [unparse(t)]
+        vals = list(t.values) if isinstance(t, ast.BoolOp) and isinstance(t.op, ast.And) else [t]
+        out = [unparse(v) for v in vals]
+        # a flag that is only ever False or a value that implies a conjunct (flag = self.save_iterations ... flag = False) implies that conjunct
+        for v in vals:
+            if isinstance(v, ast.Name) and depth:
+                ds = [a for a in walk_no_nested(func) if isinstance(a, (ast.Assign, ast.AnnAssign, ast.AugAssign, ast.NamedExpr, ast.For, ast.With, ast.ExceptHandler, ast.arg)) and _binds(a, v.id)]
+                if ds and all(isinstance(a, ast.Assign) and len(a.targets) == 1 and isinstance(a.targets[0], ast.Name) for a in ds) and not any(p_ == v.id for p_ in _params(func)):
+                    given = [set(conjuncts(a.value, depth - 1)) for a in ds if not (isinstance(a.value, ast.Constant) and not a.value.value)]
+                    if given:
+                        out += sorted(set.intersection(*given) - set(out))
+        return out
 
     ifs = [n for n in walk_no_nested(func) if isinstance(n, ast.If)]
     marks = [n for n in walk_no_nested(func) if isinstance(n, (ast.Assign, ast.AugAssign, ast.AnnAssign)) and any(unparse(t) == 'self.bestIteration' for t in (n.targets if isinstance(n, ast.Assign) else [n.target]))]
@@ -353,6 +468,26 @@ def _best_so_far(func: ast.AST, cfg, F: str, writes: list) -> bool:
         if len(init) != 1 or not all(cfg.dominates(cfg.node_of(init[0]), cfg.node_of(w)) for w in writes):
             return False
     return len(rest) == 1
+
+
+def _params(func) -> list[str]:
+    a = func.args
+    return [p.arg for p in a.posonlyargs + a.args + a.kwonlyargs + ([a.vararg] if a.vararg else []) + ([a.kwarg] if a.kwarg else [])]
+
+
+def _binds(node, name: str) -> bool:
+    """the statement (or expression) binds the local ``name``"""
+    if isinstance(node, ast.Assign):
+        tg = node.targets
+    elif isinstance(node, (ast.AnnAssign, ast.AugAssign, ast.NamedExpr, ast.For)):
+        tg = [node.target]
+    elif isinstance(node, ast.With):
+        tg = [i.optional_vars for i in node.items if i.optional_vars is not None]
+    elif isinstance(node, ast.ExceptHandler):
+        return node.name == name
+    else:
+        return False
+    return any(isinstance(x, ast.Name) and x.id == name for t in tg for x in ast.walk(t))
 
 
 def _is_alias(f, name: str, target: str) -> bool:
